@@ -272,9 +272,15 @@ func judge(c Case, o obs) verdict {
 		if ropt.Hdr.Name != "." {
 			return verdict{Kind: kind, Clause: "reply-opt-altered", Desc: "OPT owner name is " + ropt.Hdr.Name}
 		}
+		// a plugin behind the forward replaced the upstream's answer by one of its own (another rcode):
+		// the discarded reply's options have nothing to do with what the client gets
+		replaced := c.Up.Kind == "answer" && len(o.Received) > 0 && R.Rcode != c.Up.Rcode
 		for _, ro := range ropt.Option {
 			for _, name := range c.Up.Options {
 				uo := hpipe.MkOption(name, true)
+				if replaced && ro.Option() == uo.Option() && bytes.Equal(optData(ro), optData(uo)) {
+					return verdict{Kind: kind, Clause: "reply-leak-from-discarded-reply", Desc: fmt.Sprintf("the reply (rcode %d) was produced by a plugin behind the forward, yet it carries the %s option of the upstream reply (rcode %d) that was discarded", R.Rcode, optName(ro.Option()), c.Up.Rcode)}
+				}
 				if ro.Option() == uo.Option() && bytes.Equal(optData(ro), optData(uo)) {
 					ufwd = true
 				}
@@ -501,9 +507,16 @@ func TestVerifC15(t *testing.T) {
 	expired := false
 	lastDone := "nothing"
 	seen := map[string]bool{}
-	for l := 0; l <= maxLen && !expired; l++ {
-		for _, ch := range chainsUpTo(alpha, maxLen) {
+	// chains in which a plugin behind the forward replaces the upstream's answer (second SetResponse)
+	extra := [][]string{{"fwdopt10", "forward", "reject3"}, {"ecs_forward", "forward", "reject3"}, {"fwdopt65001", "cache_tagged", "forward", "reject3"}}
+	res.Bounds["extra_chains"] = extra
+	allChains := append(chainsUpTo(alpha, maxLen), extra...)
+	for l := 0; l <= 4 && !expired; l++ {
+		for _, ch := range allChains {
 			if len(ch) != l || expired {
+				continue
+			}
+			if l > maxLen && !(len(ch) >= 3 && ch[len(ch)-1] == "reject3") {
 				continue
 			}
 			for _, q := range clients {
